@@ -221,7 +221,7 @@ func CheckCallReq(c *Ctx, rule string, r CallReq, calls []CallFact) {
 			continue
 		}
 		var bad []string
-		okv := ctxAllowed(cf.Ctx, ctxRes, cf.Args)
+		okv := ctxAllowed(cf.Ctx, ctxRes, cf.Args, true)
 		for i, cx := range cf.Ctx {
 			if !okv[i] {
 				bad = append(bad, cx)
